@@ -957,10 +957,12 @@ def json_safe(x):
 def hostile_raw(r, idx):
     """Arbitrary and structure-aware mutated datagrams handed to Endpoint::handle in any state."""
     cfg = base_cfg(r)
-    cfg["server"] = {"idle_ms": 20000}
-    cfg["client"] = {"idle_ms": 20000}
+    # the damage hits the bystander's datagrams as well: it only has to get through in the end, so
+    # no idle timeout and a bounded number of damaged datagrams
+    cfg["server"] = {"idle_ms": 0}
+    cfg["client"] = {"idle_ms": 0}
     cfg["clients"] = 2
-    n = 24
+    n = 10
     menu = CORRUPT_MENU + ["corrupt:0:128", "corrupt:1:1", "corrupt:2:1", "corrupt:4:7", "corrupt:5:255", "corrupt:6:3",
                            "corrupt:14:200", "corrupt:15:9", "corrupt:22:77", "trunc:0", "trunc:2", "trunc:6", "trunc:7",
                            "trunc:15", "trunc:16", "trunc:23", "trunc:24", "trunc:30", "ext:1200", "dup:0"]
@@ -981,7 +983,7 @@ def hostile_raw(r, idx):
         if r.random() < 0.3:
             steps.append({"do": "run", "us": r.choice([0, 1000, 30000])})
     steps.append({"do": "app", "n": 2, "c": 0, "streams": [{"dir": 0, "size": 3000, "chunk": 1000, "finish": True}]})
-    steps.append({"do": "run_until", "what": "apps", "max_us": 120000000})
+    steps.append({"do": "run_until", "what": "apps", "max_us": 400000000})
     return {"cfg": cfg, "steps": steps, "tag": {"family": "hostile-raw", "victim": "s", "inject": {"k": "raw", "by": True}, "idx": idx, "hostile": True}}
 
 
